@@ -20,6 +20,7 @@ import (
 	"log"
 	"os"
 	"os/exec"
+	"path/filepath"
 	"runtime"
 	"strings"
 	"sync"
@@ -386,6 +387,19 @@ func preCond(kind int) (dag.Condition, bool) {
 	}
 }
 
+func cleanRun(caseDir string) {
+	prefix := caseDir + string(os.PathSeparator)
+	for _, e := range os.Environ() {
+		if !strings.HasPrefix(e, "STEP_") {
+			continue
+		}
+		if k := strings.IndexByte(e, '='); k > 0 && strings.HasSuffix(e[:k], "_DAG_EXECUTION_LOG_PATH") && strings.HasPrefix(e[k+1:], prefix) {
+			os.Unsetenv(e[:k])
+		}
+	}
+	os.RemoveAll(caseDir)
+}
+
 func runCase(c *Case, id int, logDir string) {
 	c.Events, c.Final, c.Err, c.Status, c.Hung, c.Note, c.HFinal, c.Terminated = nil, nil, false, 0, false, "", nil, false
 	if why := driverExhausted(); why != "" {
@@ -458,7 +472,17 @@ func runCase(c *Case, id int, logDir string) {
 	worlds.Store(id, w)
 	defer worlds.Delete(id)
 	pause := time.Duration(c.PauseUs) * time.Microsecond
-	cfg := &scheduler.Config{LogDir: logDir, MaxActiveRuns: c.MaxActive, Dry: c.Dry, Logger: quietLogger,
+	// every run gets its own log directory: when the run is over the directory goes, and so do the per-node environment
+	// variables node.setup leaves behind (STEP_<node id>_DAG_EXECUTION_LOG_PATH, never unset by the code: bounded in an
+	// agent process, which runs one DAG, but not in this driver - after ~34 000 runs the environment exceeded what execve
+	// accepts and every back-tick precondition failed to evaluate)
+	caseDir := filepath.Join(logDir, fmt.Sprintf("c%d", id))
+	defer func() {
+		if !strings.HasSuffix(c.Note, "abandoned") {
+			cleanRun(caseDir)
+		}
+	}()
+	cfg := &scheduler.Config{LogDir: caseDir, MaxActiveRuns: c.MaxActive, Dry: c.Dry, Logger: quietLogger,
 		Timeout: time.Duration(c.TimeoutUs) * time.Microsecond}
 	for h := range c.Handlers {
 		if !c.Handlers[h].On {
@@ -549,6 +573,18 @@ func runCase(c *Case, id int, logDir string) {
 	c.Err = serr != nil
 	c.StatusEnd = int(sc.Status(g))
 	c.StartedUs = g.StartAt().Sub(w.t0).Microseconds()
+	// a run whose preconditions spawn processes is only judged if this process can still spawn one (resource limits of
+	// the driver itself must not be read as behaviour of the scheduler)
+	for _, sc0 := range c.Steps {
+		if len(sc0.PreK) > 0 || sc0.SlowPreUs > 0 {
+			if _, xerr := exec.Command("true").Output(); xerr != nil {
+				c.Final, c.Events = nil, []Ev{}
+				c.Note = "skipped: the driver cannot spawn processes any more (" + xerr.Error() + "): run not judged"
+				return
+			}
+			break
+		}
+	}
 	if len(c.Handlers) == 4 {
 		for h := range c.Handlers {
 			if hn := sc.HandlerNode(handlerTypes[h]); hn != nil {
@@ -1262,6 +1298,20 @@ func main() {
 	}
 	if v := os.Getenv("VERIF_SCHED_PAR"); v != "" {
 		fmt.Sscanf(v, "%d", &par)
+	}
+	if os.Getenv("VERIF_SCHED_DIAG") != "" { // resource diagnostics on stderr
+		go func() {
+			for {
+				time.Sleep(10 * time.Second)
+				fds, _ := os.ReadDir("/proc/self/fd")
+				eb := 0
+				for _, e := range os.Environ() {
+					eb += len(e) + 1
+				}
+				_, xerr := exec.Command("true").Output()
+				fmt.Fprintf(os.Stderr, "diag: fds=%d goroutines=%d env=%d vars/%d bytes exec(true)=%v\n", len(fds), runtime.NumGoroutine(), len(os.Environ()), eb, xerr)
+			}
+		}()
 	}
 	var wg sync.WaitGroup
 	next := make(chan int)
